@@ -310,6 +310,14 @@ pub fn catch<T, F: FnOnce() -> T>(f: F) -> Result<T, String> {
 /// Strip volatile parts (numbers, addresses) from a panic/error message to get a stable signature.
 pub fn panic_site(msg: &str) -> String {
     // keep "file:line" prefix if present and the first words of the message with digits squeezed
+    // a dependency's source path: drop the machine-specific registry directory
+    let msg: String = match (msg.find("/registry/src/"), msg.find(".cargo")) {
+        (Some(i), Some(_)) => {
+            let rest = &msg[i + "/registry/src/".len()..];
+            format!("cargo-registry/{}", rest.split_once('/').map(|x| x.1).unwrap_or(rest))
+        }
+        _ => msg.to_string(),
+    };
     let mut out = String::new();
     let mut last_hash = false;
     for c in msg.chars().take(160) {
